@@ -10,7 +10,9 @@
    classes apart; otherwise the versions are dealt round-robin over the moves). *)
 EXTENDS MCBlockVerify, Json, SequencesExt
 
-CONSTANTS MaxSteps, ClassEveryVersion
+CONSTANTS MaxSteps, ClassEveryVersion,
+          MalformedMoves   \* also move fields into classes no valid block has (a v3 transaction without a mandatory
+                           \* bound): FALSE until the fix of finding block-verify:crash:invalid-class* is in the tree
 
 VARIABLES hist, cursor, steps
 mbtvars == <<vars, hist, cursor, steps>>
@@ -22,6 +24,7 @@ NT == Len(Tampers)
 
 ClsMoves == {t \in MCClassFields \X Cls3 \X Cls3 :
                /\ t[2] # t[3] /\ t[3] \in MCClassOf[t[1]]
+               /\ (MalformedMoves \/ t[3] \in MCValidClassOf[t[1]])
                /\ \E s \in MCShapes : MCShapeClass[s][t[1]] = t[2]}
 ToldApart(v, t) == t[1] \in MCClassIn[v] /\ SeenAs(t[2], t[1], MCProtoSame[v]) # SeenAs(t[3], t[1], MCProtoSame[v])
 CTampers ==
